@@ -196,6 +196,7 @@ static void setup_regions(void)
     nregions = 0; nheap = 0; memset(heap_seq, 0, sizeof(heap_seq));
     for (t = 0; t < nthr; ++t) region_add(&ctxs[t], sizeof(Ctx), t, "thread context");
     region_add(&shared, sizeof(shared), OWN_SHARED_RO, "shared read-only objects");
+    region_add(adj, sizeof(adj), OWN_SHARED, "caller's array of adjacent output slices");
 }
 
 static int run_execution(const int *prefix, int nprefix)
